@@ -99,14 +99,14 @@ Print Assumptions C36_file_wrong_password_gate_partial.
 Theorem C36_wrong_password_refuted :
   forall f sha256 ctr sha3 keccak dirc, CtrLaw ctr -> KdfLaw (hkdf f sha256) ->
   forall name nk salt iv nk' salt' iv',
-    fname dirc name <> None -> length nk = 32%nat -> length iv = 16%nat ->
+    fname dirc name <> None -> length iv = 16%nat ->
     exists pw pw' s1, pw <> pw' /\
-      fstep (hkdf f sha256) ctr sha3 keccak dirc [] (OKey name pw nk salt iv) = (s1, OutKey nk true) /\
-      fstep (hkdf f sha256) ctr sha3 keccak dirc s1 (OKey name pw' nk' salt' iv') = (s1, OutKey nk false).
+      fstep (hkdf f sha256) ctr sha3 keccak dirc [] (OKey name pw nk salt iv) = (s1, OutKey (ser32 nk) true) /\
+      fstep (hkdf f sha256) ctr sha3 keccak dirc s1 (OKey name pw' nk' salt' iv') = (s1, OutKey (ser32 nk) false).
 Proof.
-  intros f sha256 ctr sha3 keccak dirc Hc Hk name nk salt iv nk' salt' iv' Hn Hl Hiv.
+  intros f sha256 ctr sha3 keccak dirc Hc Hk name nk salt iv nk' salt' iv' Hn Hiv.
   destruct (hmac_wrong_password_accepted f sha256 ctr sha3 keccak P ver dirc Hc
-              (kdf_law_32 (hkdf f sha256) Hk) name nk salt iv nk' salt' iv' Hn Hl Hiv) as [s1 H].
+              (kdf_law_32 (hkdf f sha256) Hk) name nk salt iv nk' salt' iv' Hn Hiv) as [s1 H].
   exists [], [0], s1. split; [discriminate | exact H].
 Qed.
 Print Assumptions C36_wrong_password_refuted.
@@ -142,6 +142,27 @@ Theorem C36_file_key_survives :
 Proof. intros kdf ctr sha3 keccak dirc Hc Hk. exact (file_stable kdf ctr sha3 keccak P ver dirc). Qed.
 Print Assumptions C36_file_key_survives.
 
+(** the key encoding has a fixed width: every scalar below 2^256 — hence every secp256k1
+    scalar in [1, N-1], however many leading zero bytes it has — is written as exactly 32
+    bytes (big-endian, left-padded) and reads back as the same number *)
+Theorem C36_key_encoding_fixed_width :
+  forall d, length (ser32 d) = 32%nat /\ (d < 2 ^ 256 -> be_val (ser32 d) = d).
+Proof. intros d. exact (conj (ser32_length d) (be_val_ser32 d)). Qed.
+Print Assumptions C36_key_encoding_fixed_width.
+
+(** "A key stored under a name and password is returned unchanged for that password", for a key
+    handed in through ImportPrivateKey: after a successful import of scalar [d], Key with that
+    password returns the 32-byte encoding of [d] (created = false, store unchanged). Together
+    with [C36_file_same_password_same_key] this holds after any later history as well. *)
+Theorem C36_file_import_private_key_roundtrip :
+  forall kdf ctr sha3 keccak dirc, CtrLaw ctr -> KdfLaw kdf ->
+  forall h name pw d salt iv s' nk' salt' iv',
+    Forall wf_op h -> wf_op (OImportPriv name pw d salt iv) ->
+    fstep kdf ctr sha3 keccak dirc (fst (frun kdf ctr sha3 keccak dirc [] h)) (OImportPriv name pw d salt iv) = (s', OutDone) ->
+    fstep kdf ctr sha3 keccak dirc s' (OKey name pw nk' salt' iv') = (s', OutKey (ser32 d) false).
+Proof. intros kdf ctr sha3 keccak dirc Hc Hk. exact (import_priv_roundtrip kdf ctr sha3 keccak P ver dirc Hc). Qed.
+Print Assumptions C36_file_import_private_key_roundtrip.
+
 (** ---- in-memory keystore ---- *)
 Theorem C36_mem_same_password_same_key :
   forall m name pw nk m' k c h nk',
@@ -165,14 +186,14 @@ Definition toy_keccak (x : bytes) : bytes := x.
 Definition toy_sha3 (x : bytes) : bytes := 1 :: x.
 
 Example C36_hyps_satisfiable :
-  let K1 := repeat 5 32 in let K2 := repeat 9 32 in let iv := repeat 3 16 in let salt := repeat 4 32 in
+  let D1 := 5 in let D2 := 2 ^ 255 + 9 in let K1 := ser32 D1 in let K2 := ser32 D2 in let iv := repeat 3 16 in let salt := repeat 4 32 in
   let a := [97] in let b := [98;47;46;46;47;98] (* "b/../b" *) in
-  let h := [OKey a [1;2] K1 salt iv; OKey b [1;2] K2 salt iv] in
+  let h := [OKey a [1;2] D1 salt iv; OKey b [1;2] D2 salt iv] in
   Forall wf_op h /\
-  snd (frun toy_kdf toy_ctr toy_sha3 toy_keccak [[100]] [] (h ++ [OKey a [1;2] K2 salt iv; OKey a [1;3] K2 salt iv; OKey [98] [1;2] K1 salt iv]))
+  snd (frun toy_kdf toy_ctr toy_sha3 toy_keccak [[100]] [] (h ++ [OKey a [1;2] D2 salt iv; OKey a [1;3] D2 salt iv; OKey [98] [1;2] D1 salt iv]))
     = [OutKey K1 true; OutKey K2 true; OutKey K1 false; OutErr EInvalidPassword; OutKey K2 false] /\
   (exists d, snd (fstep toy_kdf toy_ctr toy_sha3 toy_keccak [[100]] (fst (frun toy_kdf toy_ctr toy_sha3 toy_keccak [[100]] [] h)) (OExport a [1;2] salt iv)) = OutExport d /\
-     snd (frun toy_kdf toy_ctr toy_sha3 toy_keccak [[100]] (fst (frun toy_kdf toy_ctr toy_sha3 toy_keccak [[100]] [] h)) [OImport b [1;2] d salt iv; OKey b [1;2] K2 salt iv])
+     snd (frun toy_kdf toy_ctr toy_sha3 toy_keccak [[100]] (fst (frun toy_kdf toy_ctr toy_sha3 toy_keccak [[100]] [] h)) [OImport b [1;2] d salt iv; OKey b [1;2] D2 salt iv])
        = [OutDone; OutKey K1 false]).
 Proof.
   cbv zeta. split; [repeat constructor|]. split; [vm_compute; reflexivity|].
